@@ -41,7 +41,7 @@ func isMapOp(i ssa.Instruction, op, field string) bool {
 
 func c13(r *Run) {
 	w := r.W
-	ro := rolesOf(w)
+	ro := r.roles()
 	onAccept := w.MustFn("(*server).onAccept")
 	initFn := w.MustFn("(*connection).init")
 	addCb := w.MustFn("(*connection).AddCloseCallback")
@@ -50,13 +50,13 @@ func c13(r *Run) {
 	// ---- R1 / R2 tracking ------------------------------------------------------------------------
 	stores := findIns(onAccept, func(i ssa.Instruction) bool { return isMapOp(i, "Store", "connections") })
 	if len(stores) != 1 {
-		broken("ANCHOR-LOST C13: %d connections.Store sites in onAccept", len(stores))
+		r.absentf(" C13: %d connections.Store sites in onAccept", len(stores))
 	}
 	store := stores[0]
 	inits := findIns(onAccept, func(i ssa.Instruction) bool { return isCall(i, initFn) })
 	adds := findIns(onAccept, func(i ssa.Instruction) bool { return isCall(i, addCb) })
 	if len(inits) != 1 || len(adds) < 1 {
-		broken("ANCHOR-LOST C13: onAccept has %d init and %d AddCloseCallback calls", len(inits), len(adds))
+		r.absentf(" C13: onAccept has %d init and %d AddCloseCallback calls", len(inits), len(adds))
 	}
 	// the untrack callback: the closure passed to AddCloseCallback that deletes from the map
 	var untrack *ssa.Function
@@ -154,12 +154,12 @@ func c13(r *Run) {
 	{
 		ranges := findIns(srvClose, func(i ssa.Instruction) bool { return isMapOp(i, "Range", "connections") })
 		if len(ranges) != 1 {
-			broken("ANCHOR-LOST C13: %d connections.Range calls in server.Close", len(ranges))
+			r.absentf(" C13: %d connections.Range calls in server.Close", len(ranges))
 		}
 		rng := ranges[0]
 		scan := makeClosureFn(callCommon(rng).Args[1])
 		if scan == nil {
-			broken("ANCHOR-LOST C13: scan closure of server.Close")
+			r.absentf(" C13: scan closure of server.Close")
 		}
 		r.precedes("C13.R3:detach-before-scan", "Shutdown removes the listener from the poller before it scans the connections (no new accepts)", srvClose, rng, func(i ssa.Instruction) bool { return ro.isControl(i, ro.evDetach) }, nil, "Control(PollDetach) dominates the scan")
 		r.precedes("C13.R3:close-listener-before-scan", "Shutdown closes the listener before it scans", srvClose, rng, func(i ssa.Instruction) bool {
